@@ -27,6 +27,7 @@ type Scratch struct {
 	Report    *rewrite.Report
 	BuildSecs float64
 	Work      string // per-run work area (sandboxes, world configs)
+	Reused    bool
 }
 
 var repoRoot = "/repo"
@@ -86,6 +87,27 @@ func copyTree(src, dst string) error {
 // injects the simulator runtime and builds the binaries.
 func BuildScratch(needReal bool, logf func(string, ...any)) (*Scratch, error) {
 	t0 := time.Now()
+	if pre := os.Getenv("VERIF_SCRATCH"); pre != "" {
+		// a scratch built by the determinism self-test (VERIF_KEEP): reuse it
+		sc := &Scratch{Dir: pre, Src: filepath.Join(pre, "src"), Worker: filepath.Join(pre, "simworker"), SimCLI: filepath.Join(pre, "simcli"), Reused: true}
+		if _, err := os.Stat(filepath.Join(pre, "fin-protoc-real")); err == nil {
+			sc.RealCLI, sc.RealSO, sc.CHost = filepath.Join(pre, "fin-protoc-real"), filepath.Join(pre, "libpacketdsl.so"), filepath.Join(pre, "chost")
+		}
+		data, err := os.ReadFile(filepath.Join(pre, "report.json"))
+		if err != nil {
+			return nil, infraf("VERIF_SCRATCH: %v", err)
+		}
+		sc.Report = &rewrite.Report{}
+		if err := json.Unmarshal(data, sc.Report); err != nil {
+			return nil, infraf("VERIF_SCRATCH: %v", err)
+		}
+		w, err := os.MkdirTemp(pre, "work-")
+		if err != nil {
+			return nil, infraf("VERIF_SCRATCH: %v", err)
+		}
+		sc.Work = w
+		return sc, nil
+	}
 	base := os.Getenv("VERIF_TMP")
 	if base == "" {
 		base = os.TempDir()
@@ -107,6 +129,7 @@ func BuildScratch(needReal bool, logf func(string, ...any)) (*Scratch, error) {
 		return sc, infraf("seam rewriter failed (the tree must compile): %v", err)
 	}
 	sc.Report = rep
+	_ = os.WriteFile(filepath.Join(dir, "report.json"), mustJSON(rep), 0o644)
 	// inject
 	for _, pair := range [][2]string{
 		{"_inject/simrt", "internal/simrt"},
@@ -179,6 +202,10 @@ func BuildScratch(needReal bool, logf func(string, ...any)) (*Scratch, error) {
 }
 
 func (sc *Scratch) Cleanup() {
+	if sc != nil && sc.Reused {
+		_ = os.RemoveAll(sc.Work)
+		return
+	}
 	if sc != nil && sc.Dir != "" && os.Getenv("VERIF_KEEP") == "" {
 		_ = os.RemoveAll(sc.Dir)
 	}
